@@ -164,7 +164,15 @@ fn run_inner(sc: &J) -> Result<Option<String>, String> {
             let mut good = Vec::new();
             let (_, appended_good) = run(&mut good);
             let mut sink = FaultySink { data: Vec::new(), accept, fail_at, calls: 0 };
-            let (all_ok, _) = run(&mut sink);
+            let (all_ok, appended_faulty) = run(&mut sink);
+            if sc["retry"].as_bool().unwrap_or(false) {
+                // the sink failed once and then worked: what it holds must be a readable file with exactly the values whose
+                // append returned Ok (the caller retried on the same writer)
+                match apache_avro::Reader::new(&sink.data[..]) {
+                    Ok(rd) => match rd.collect::<Result<Vec<Value>, _>>() { Ok(vs) if vs == appended_faulty => {}, other => return Ok(Some(format!("after a sink failure and retries the file reads back as {other:?}, appended Ok: {appended_faulty:?}"))) },
+                    Err(e) => return Ok(Some(format!("after a sink failure at call {:?} and successful retries the file cannot be opened: {e} ({} bytes in the sink)", fail_at, sink.data.len()))),
+                }
+            }
             if all_ok && sink.data != good { return Ok(Some(format!("every call returned Ok but the sink holds {} bytes, an in-memory buffer holds {}", sink.data.len(), good.len()))); }
             // read back the in-memory file: exactly the successfully appended values
             match apache_avro::Reader::new(&good[..]) {
@@ -206,8 +214,9 @@ fn run_inner(sc: &J) -> Result<Option<String>, String> {
                     }
                 }
             };
-            if let Some(off) = sc.get("flip").and_then(|x| x.as_u64()) {
-                let off = off as usize; let mut d = file.clone(); d[off] ^= 0xff;
+            // `flip` = absolute offset, or `flip_block` i (+ `flip_byte` j): byte j of the sync marker that ends block i
+            let flip = sc.get("flip").and_then(|x| x.as_u64()).map(|x| x as usize).or_else(|| sc.get("flip_block").and_then(|x| x.as_u64()).map(|i| boundaries[i as usize + 1].0 - 16 + sc["flip_byte"].as_u64().unwrap_or(0) as usize));
+            if let Some(off) = flip { let mut d = file.clone(); d[off] ^= 0xff;
                 // find the block whose marker contains `off`
                 let bi = boundaries.iter().position(|(e, _)| off < *e).unwrap_or(0);
                 let vals_before = if bi == 0 { 0 } else { boundaries[bi - 1].1 };
@@ -573,6 +582,7 @@ fn run_inner(sc: &J) -> Result<Option<String>, String> {
 fn _u(_: &Value) {}
 
 pub struct FaultySink { pub data: Vec<u8>, pub accept: usize, pub fail_at: Option<usize>, pub calls: usize }
+// (a sink that fails exactly at call `fail_at` and works again afterwards: retries on the same writer are part of C13's histories)
 impl std::io::Write for FaultySink {
     fn write(&mut self, buf: &[u8]) -> std::io::Result<usize> {
         let c = self.calls; self.calls += 1;
